@@ -3478,7 +3478,8 @@ theorem c06_shape_Overlay_checkPendingTreeMarshal_full :
    ["pendingTreeLock.Lock", "assign:sl,ok:=o.pendingTreeMarshal[el.ID]", "if:!ok",
      "pendingTreeLock.Unlock", "return:", "range:_,tm:=sl{",
      "if:(o.treeStorage.Get(tm.TreeID)!=nil)", "continue", "tm.MakeTree",
-     "assign:tree,err:=tm.MakeTree(el)", "if:(err!=nil)", "continue", "o.RegisterTree", "}",
+     "assign:tree,err:=tm.MakeTree(el)", "if:(err!=nil)", "continue", "treeStorage.setIfMissing",
+     "assign:stored:=o.treeStorage.setIfMissing(tree,false)", "if:stored", "o.checkPendingMessages", "}",
      "pendingTreeLock.Unlock"] := rfl
 
 theorem c06_shape_Overlay_handleSendTree_full :
@@ -3486,7 +3487,9 @@ theorem c06_shape_Overlay_handleSendTree_full :
    ["if:((rt.TreeMarshal==nil)||rt.TreeMarshal.TreeID.IsNil())", "return:",
      "if:(rt.Roster==nil)", "return:", "if:!o.treeStorage.IsRequested(rt.TreeMarshal.TreeID)",
      "return:", "TreeMarshal.MakeTree", "assign:tree,err:=rt.TreeMarshal.MakeTree(rt.Roster)",
-     "if:(err!=nil)", "return:", "o.RegisterTree"] := rfl
+     "if:(err!=nil)", "return:", "treeStorage.setIfMissing",
+     "assign:stored:=o.treeStorage.setIfMissing(tree,true)", "if:!stored", "return:",
+     "o.checkPendingMessages"] := rfl
 
 theorem c06_shape_Overlay_handleSendTreeMarshal_full :
     Shapes.overlay_Overlay_handleSendTreeMarshal_full =
@@ -3566,6 +3569,15 @@ theorem c06_shape_Overlay_addPendingTreeMarshal :
 theorem c06_shape_Roster_searchByKey :
     Shapes.tree_Roster_searchByKey =
    ["range:i,e:=ro.List{", "if:e.GetID().Equal(eID)", "return:i,e", "}", "return:-1,nil"] := rfl
+
+
+/-- the store's test-and-set that `handleSendTree` (only a requested slot) and `checkPendingTreeMarshal` (any slot without
+a tree) use since the second repair of round 7: test and write under one lock — a handler is one step, as in the model -/
+theorem c06_shape_treeStorage_setIfMissing :
+    Shapes.treestorage_treeStorage_setIfMissing =
+   ["ts.Lock", "defer:ts.Unlock", "assign:t,ok:=ts.trees[tree.ID]",
+     "if:((t!=nil)||(onlyRequested&&!ok))", "return:false", "ts.cancelDeletion",
+     "assign:ts.trees[tree.ID]=tree", "return:true"] := rfl
 
 
 end C06
